@@ -34,6 +34,12 @@ def mc_all(cfg_suffix, fams=FAMS, cfg_override=None):
         return dict(ex.map(one, fams))
 
 
+def three_sanitizers(ad):
+    """string declarations with three sanitizers (trim, a case mapping and a custom function in every order): where a
+    reordered, fused or hoisted sanitizer shows. Always part of the sample."""
+    return ad["fam"] == "string" and len(ad["san"]) >= 3
+
+
 def run_direct_property(prop, eps, sizes, nrandom, want_default, extra_must=None, mc_suffix=None,
                         cfg_override=None, lifts=1, evidence_extra=None, reject_is_violation=None,
                         rows_fn=None, fams=FAMS, decl_filter=None, nshards=4, const_twins=False, extra_mc=(), sweeps=False, generic_history=False,
@@ -66,7 +72,7 @@ def run_direct_property(prop, eps, sizes, nrandom, want_default, extra_must=None
         mc_states += r.distinct
         mc_trans += r.generated
         n_decl_space[fam] = len(adecls)
-        sample = CV.sample_decls(adecls, sizes.get(fam), rng, must=extra_must)
+        sample = CV.sample_decls(adecls, sizes.get(fam), rng, must=(lambda ad, f=extra_must: three_sanitizers(ad) or bool(f and f(ad))))
         decls = CV.instantiate_slice(fam, sample, rng, "%s%s_" % (prop.lower(), fam[0]), lifts=lifts)
         if const_twins and fam in ("int", "float"):
             twins = []
